@@ -165,7 +165,7 @@ def snap_float(f: float) -> Fraction:
 
 def lift(o):
     """z3 Real term for a proxy or an exact/float number; None if not a scalar we know."""
-    if isinstance(o, SV):
+    if isinstance(o, _SVOps):
         return o.t
     if isinstance(o, (bool, np.bool_)):
         return z3.RealVal(int(o))
@@ -174,7 +174,14 @@ def lift(o):
     if isinstance(o, Fraction):
         return z3.Q(o.numerator, o.denominator)
     if isinstance(o, (float, np.floating)):
-        fr = snap_float(float(o))
+        f = float(o)
+        if f != f or f in (float('inf'), float('-inf')):
+            # a NaN / infinity produced by the real code on this path: an unconstrained poison value.
+            # Nothing equals it provably, so any claim touching it comes back sat and is replayed.
+            c = cur()
+            c.notes.append('non-finite float entered the computation')
+            return c.fresh('nan')
+        fr = snap_float(f)
         return z3.Q(fr.numerator, fr.denominator)
     if z3.is_expr(o) and z3.is_arith(o):
         return o
@@ -317,12 +324,9 @@ class SB:
 
 # --------------------------------------------------------------------------- SV
 
-class SV:
-    """Symbolic value: a z3 Real term with ring-element behaviour."""
-    __slots__ = ('t',)
-
-    def __init__(self, t):
-        self.t = t
+class _SVOps:
+    """operations shared by SV and the float-subclass variant SVf."""
+    __slots__ = ()
 
     # ---- arithmetic
     def _bin(self, o, f):
@@ -409,6 +413,66 @@ class SV:
 
     def copy(s):
         return s
+
+
+class SV(_SVOps):
+    """Symbolic value: a z3 Real term with ring-element behaviour."""
+    __slots__ = ('t',)
+
+    def __init__(self, t):
+        self.t = t
+
+
+class SVf(_SVOps, float):
+    """
+    Symbolic value that is ALSO an instance of ``float`` (its C-level value is NaN), so that code
+    dispatching on ``isinstance(v, (float, int))`` -- MultiVector.exp -- takes its numeric
+    branches.  Every arithmetic / comparison dunder is the symbolic one; ``float()`` raises.  C code
+    that reads the raw double (numpy ufuncs) must be patched out by the harness: it would silently
+    see NaN.
+    """
+    def __new__(cls, t):
+        obj = float.__new__(cls, float('nan'))
+        obj.t = t
+        return obj
+
+    def __init__(self, t):
+        pass
+
+    def __reduce__(self):
+        raise ValueBranch('pickling a symbolic value')
+
+    __hash__ = _SVOps.__hash__
+    __eq__ = _SVOps.__eq__
+    __ne__ = _SVOps.__ne__
+    __lt__ = _SVOps.__lt__
+    __le__ = _SVOps.__le__
+    __gt__ = _SVOps.__gt__
+    __ge__ = _SVOps.__ge__
+    __repr__ = _SVOps.__repr__
+    __str__ = _SVOps.__repr__
+    __bool__ = _SVOps.__bool__
+    __float__ = _SVOps.__float__
+    __int__ = _SVOps.__int__
+    __abs__ = _SVOps.__abs__
+    __neg__ = _SVOps.__neg__
+    __pos__ = _SVOps.__pos__
+    __pow__ = _SVOps.__pow__
+    __add__ = _SVOps.__add__
+    __radd__ = _SVOps.__radd__
+    __sub__ = _SVOps.__sub__
+    __rsub__ = _SVOps.__rsub__
+    __mul__ = _SVOps.__mul__
+    __rmul__ = _SVOps.__rmul__
+    __truediv__ = _SVOps.__truediv__
+    __rtruediv__ = _SVOps.__rtruediv__
+
+    def __trunc__(self): raise ValueBranch('trunc() of a symbolic coefficient')
+    def __round__(self, n=None): raise ValueBranch('round() of a symbolic coefficient')
+    def __floordiv__(self, o): raise ValueBranch('// on a symbolic coefficient')
+    def __mod__(self, o): raise ValueBranch('% on a symbolic coefficient')
+    def is_integer(self): raise ValueBranch('is_integer() of a symbolic coefficient')
+    def as_integer_ratio(self): raise ValueBranch('as_integer_ratio() of a symbolic coefficient')
 
 
 def var(name: str) -> SV:
